@@ -37,6 +37,8 @@ pub fn random_bits(n: u32) -> Integer {
 
     let mut i = Integer::from(Integer::random_bits(n, &mut rand));
     i.set_bit(n - 1, true);
+    #[cfg(zkryptium_verif)]
+    crate::verif_hooks::rng_draw("random_bits", n, &i.to_digits::<u8>(rug::integer::Order::MsfBe));
     i
 }
 
@@ -49,6 +51,8 @@ pub fn random_number(n: Integer) -> Integer {
     let mut rand = RandState::new_custom(&mut binding);
 
     let number = n.random_below(&mut rand);
+    #[cfg(zkryptium_verif)]
+    crate::verif_hooks::rng_draw("random_number", 0, &number.to_digits::<u8>(rug::integer::Order::MsfBe));
     number
 }
 
@@ -82,5 +86,12 @@ pub fn rand_int(a: Integer, b: Integer) -> Integer {
 
     let range = (&b - &a).complete() + Integer::from(1);
     // NOTE: return a random integer in the range [a, b], including both end points.
+    #[cfg(zkryptium_verif)]
+    return {
+        let v = a + range.random_below(&mut rand);
+        crate::verif_hooks::rng_draw("rand_int", 0, &v.to_digits::<u8>(rug::integer::Order::MsfBe));
+        v
+    };
+    #[cfg(not(zkryptium_verif))]
     return a + range.random_below(&mut rand);
 }
